@@ -448,6 +448,20 @@ def parseSub (text : Bytes) : Except PErr Config :=
   | some st => validate st.cfg
   | none => .error .outside
 
+/-! ## `dawn get` / `dawn tidy` (cmd/dawn/get.go, tidy.go) -/
+
+/-- What the two commands do to the configuration between `LoadConfigFile` and `WriteConfigFile`:
+`config.Requirements = newReqs` — the requirements the resolver (`mvs.Get` / `mvs.UpgradeAll` / `mvs.Tidy`)
+returned replace the old ones, every other field of the *loaded* configuration is written back. -/
+def rewrite (c : Config) (newReqs : List Req) : Config := { c with reqs := newReqs }
+
+/-- the file `get` / `tidy` leave behind, as a function of the file they found and of what the resolver returned
+(`outside` / `badVersion`: the command stops at "loading config file" and writes nothing) -/
+def rewriteFile (text : Bytes) (newReqs : List Req) : Except PErr Bytes :=
+  match parseSub text with
+  | .ok c => .ok (emit (rewrite c (sortReqs newReqs)))
+  | .error e => .error e
+
 /-! ## validity (DESIGN.md §4) -/
 
 def sortedKeys : List Req → Bool
